@@ -65,14 +65,20 @@ TOLERANCES = {
     "eqps_new >= eqps_old": "exact",
     "|det Fp_new - 1| (large) ": "1e-10",
     "|tr eps_p_new| (small / seth hill)": "1e-14",
-    "yield function at committed state": "<= 10 * 1e-10 * Y0 (code's own root tolerance is 1e-10*Y0; worst observed "
-                                         "9.99e-11*Y0 = the solver tolerance itself, rounding part ~1e-13*Y0)",
-    "stationarity |r_ref(eqps_new)| when yielding; r_ref(eqps_old) >= -tol when elastic": "10 * 1e-10 * Y0",
-    "committed potential - min(reference potential on stencil, at reference minimiser, at committed eqps)": "<= 1e-12 * max(1, |Phi|)",
+    "yield function at committed state": "<= 10 * 1e-10 * Y0 + 4*eps*eqps*Phi''(eqps_new) (code's own root tolerance is "
+                                         "1e-10*Y0; the second term is the conditioning of that case: one ulp of eqps "
+                                         "moves the residual by eps*eqps*Phi'', unbounded for the power-law overstress "
+                                         "as the increment -> 0+, where the solver exits by stagnation; worst observed "
+                                         "1.4e-10*Y0 there, 9.99e-11*Y0 = solver tolerance elsewhere)",
+    "stationarity |r_ref(eqps_new)| when yielding; r_ref(eqps_old) >= -tol when elastic": "same tolerance",
+    "committed potential - min(reference potential on stencil, at reference minimiser, at committed eqps)": "<= 1e-11 * max(1, |Phi|) (worst observed 1.4e-14; second order in every first-order error)",
     "second update at the same target (rate-independent)": "max |state change| <= 1e-9",
-    "energy before vs after commit (rate-independent)": "<= 1e-9 * (|W| + Y0^2/E)",
-    "stress before vs after commit (rate-independent)": "<= 1e-9 * (|P|_F + Y0)  (a-priori from the root tolerance: "
-                                                        "|dP| <= |r| |d eqps/dH| <= 0.8e-10*Y0)",
+    "energy before vs after commit (rate-independent)": "<= tol_c * (|W| + Y0^2/E); tol_c = 1e-9 (small), 1e-7 (large, seth "
+                                                        "hill: eigen-solver based, C12's calibrated accuracy)",
+    "stress before vs after commit (rate-independent)": "<= tol_c * (|P|_F + Y0)  (a-priori from the root tolerance: "
+                                                        "|dP| <= |r| |d eqps/dH| <= 0.8e-10*Y0; worst observed small "
+                                                        "1.9e-10... large 5.2e-10 at an in-plane eigenvalue gap of 1e-8 "
+                                                        "of Ce in generic orientation)",
     "D11 classification": "relative eigenvalue gap <= 1e-6 of a tensor handed to the eigen-solver",
 }
 
@@ -278,7 +284,8 @@ def _judge(ref, g, H, s0, out, dt):
     n = H.shape[0]
     rate_on = g["rate"]
     Y0 = ref.Y0
-    tol_r = TOL_R_FACTOR * 1e-10 * Y0
+    tol_r0 = TOL_R_FACTOR * 1e-10 * Y0
+    tol_c = 1e-9 if ref.kin == "small" else 1e-7     # commit invariance: eigen-solver based kinematics see C12's 1e-7
     s1 = out["s1"]
     e0, e1 = s0[:, 0], s1[:, 0]
     fails = [[] for _ in range(n)]
@@ -310,6 +317,12 @@ def _judge(ref, g, H, s0, out, dt):
         m0 = ref.measures(H, s0)
         a = m0["a"]
         yielding = e1f > e0
+        # conditioning of the scalar problem: one rounding step of eqps changes the residual by eps*eqps*Phi''
+        # (Phi'' is unbounded for a power-law overstress as the increment -> 0+); the root finder cannot do better
+        d2 = 3.0 * ref.mu + ref.dY(e1f) + onp.where(yielding, ref.dsig_rate(onp.where(yielding, e1f - e0, 1.0), dt), 0.0)
+        cond = 2.220446049250313e-16 * onp.maximum(e1f, onp.abs(a)) * d2
+        tol_r = tol_r0 + 4.0 * cond
+        met["conditioning term 4*eps*eqps*Phi'' / Y0 (added to the residual tolerances)"] = 4.0 * cond / Y0
         r_new = ref.resid(e1f, a, e0, dt)
         r_old = ref.resid(e0, a, e0, dt)
         met["stationarity |r| / Y0 (yielding)"] = onp.where(yielding, onp.abs(r_new), 0.0) / Y0
@@ -350,25 +363,25 @@ def _judge(ref, g, H, s0, out, dt):
             f.append(("eqps-decreased", {"eqps_old": e0[i], "eqps_new": e1[i]}))
         if not (iso[i] <= iso_tol):
             f.append(("not-isochoric", {iso_name: iso[i], "tol": iso_tol}))
-        if not (fy[i] <= tol_r):
-            f.append(("yield-exceeded", {"yield_function": fy[i], "tol": tol_r, "mises": m1["mises"][i]}))
+        if not (fy[i] <= tol_r[i]):
+            f.append(("yield-exceeded", {"yield_function": fy[i], "tol": tol_r[i], "mises": m1["mises"][i]}))
         if yielding[i]:
-            if not (abs(r_new[i]) <= tol_r):
-                f.append(("not-stationary", {"r_ref(eqps_new)": r_new[i], "tol": tol_r, "eqps_ref": e_star[i]}))
+            if not (abs(r_new[i]) <= tol_r[i]):
+                f.append(("not-stationary", {"r_ref(eqps_new)": r_new[i], "tol": tol_r[i], "eqps_ref": e_star[i]}))
         else:
-            if not (r_old[i] >= -tol_r):
-                f.append(("elastic-but-potential-decreases", {"r_ref(eqps_old)": r_old[i], "tol": tol_r,
+            if not (r_old[i] >= -tol_r[i]):
+                f.append(("elastic-but-potential-decreases", {"r_ref(eqps_old)": r_old[i], "tol": tol_r[i],
                                                                "eqps_ref": e_star[i]}))
-        if not (excess[i] <= 1e-12):
+        if not (excess[i] <= 1e-11):
             k = int(onp.argmin(phis[i]))
             f.append(("not-minimal", {"Phi(committed state)": phi_c[i], "Phi_ref_min": phi_min[i],
                                       "at_eqps": pts[i, k], "eqps_new": e1[i], "eqps_ref_minimiser": e_star[i]}))
         if not rate_on:
             if not (idem[i] <= 1e-9):
                 f.append(("not-idempotent", {"max_change": idem[i], "state_after_second_update": out["s2"][i]}))
-            if not (dW[i] <= 1e-9):
+            if not (dW[i] <= tol_c):
                 f.append(("commit-changes-energy", {"W_before": out["W0"][i], "W_after": out["W1"][i]}))
-            if not (dP[i] <= 1e-9):
+            if not (dP[i] <= tol_c):
                 f.append(("commit-changes-stress", {"P_before": out["P0"][i], "P_after": out["P1"][i]}))
     aux = {"yielding": yielding & finite, "finite": finite, "flow_dir_defined": m0["flow_dir_defined"],
            "N": m0["N"], "r_old": r_old, "mises_trial": m0["mises"], "a": a, "dt": dt}
